@@ -393,3 +393,5 @@ MUTANTS = [
     ('session-iv-differs', S, "            self._iv = rc[0:8]", "            self._iv = rc[8:16]", 'C20-R'),
     ('mac-not-reversed', S, "return bytearray(triple_des(key, CBC, bytes(iv)).encrypt(txt)[:-9:-1])", "return bytearray(triple_des(key, CBC, bytes(iv)).encrypt(txt)[-8:])", 'C20-R4'),
 ]
+
+EXPLANATION += ' Round 5: protect() and authenticate() hand the password to their delegates unchanged.'
